@@ -94,6 +94,9 @@ fn worker(args: &[String]) -> i32 {
     let start: u64 = arg(args, "--start").map(|s| s.parse().unwrap()).unwrap_or(0);
     let out_dir = arg(args, "--out").unwrap_or("/verif/out").to_string();
     let per_run = flag(args, "--per-run");
+    if flag(args, "--real-threads") {
+        run::REAL_THREADS.store(true, std::sync::atomic::Ordering::Relaxed);
+    }
     let hang_limit = Duration::from_secs(
         arg(args, "--hang-secs")
             .map(|s| s.parse().unwrap())
@@ -239,6 +242,7 @@ struct Known {
     property: String,
     signature: String,
     grammar: Option<String>,
+    detail_contains: Option<String>,
     what: String,
 }
 
@@ -252,6 +256,10 @@ fn load_known(path: &str) -> Vec<Known> {
                         property: k["property"].as_str().unwrap_or("").to_string(),
                         signature: k["signature"].as_str().unwrap_or("").to_string(),
                         grammar: k.get("grammar").and_then(|x| x.as_str()).map(|s| s.to_string()),
+                        detail_contains: k
+                            .get("detail_contains")
+                            .and_then(|x| x.as_str())
+                            .map(|s| s.to_string()),
                         what: k["what"].as_str().unwrap_or("").to_string(),
                     });
                 }
@@ -302,6 +310,12 @@ fn batch(args: &[String]) -> i32 {
             .stderr(Stdio::null());
         if let Some(h) = arg(args, "--hang-secs") {
             c.args(["--hang-secs", h]);
+        }
+        if flag(args, "--real-threads") {
+            c.arg("--real-threads");
+        }
+        if let Some(st) = arg(args, "--start") {
+            c.args(["--start", st]);
         }
         children.push((shard, c.spawn().expect("spawn worker")));
     }
@@ -438,6 +452,11 @@ fn batch(args: &[String]) -> i32 {
             k.property == prop
                 && k.signature == sig
                 && (k.grammar.is_none() || k.grammar == grammar)
+                && k
+                    .detail_contains
+                    .as_ref()
+                    .map(|d| v["detail"].as_str().unwrap_or("").contains(d.as_str()))
+                    .unwrap_or(true)
         });
         match k {
             Some(k) => known_lines.push(format!("KNOWN-FINDING: property={prop} {}", k.what)),
@@ -677,7 +696,7 @@ fn regress(args: &[String]) -> i32 {
         n += 1;
         let mut sc = rf.scenario.clone();
         sc.property = prop.to_string();
-        let o = run_guarded(&sc, false, Duration::from_secs(30));
+        let o = run_guarded(&sc, false, Duration::from_secs(180));
         let got = match &o {
             None => Some("hang".to_string()),
             Some(o) => o.violation.as_ref().map(|v| v.signature.clone()),
@@ -708,6 +727,65 @@ fn regress(args: &[String]) -> i32 {
     println!("regress property={prop}: {n} scenario(s) replayed, {bad} failing");
     if bad > 0 {
         1
+    } else {
+        0
+    }
+}
+
+/// Determinism gate: every run index is executed in several *processes* (different hash-map
+/// seeds, different worker counts) and the event-log hashes must be identical.
+fn selftest(args: &[String]) -> i32 {
+    let prop = arg(args, "--prop").unwrap().to_string();
+    let tier = arg(args, "--tier").unwrap_or("quick").to_string();
+    let seed = arg(args, "--seed").unwrap_or("20260923").to_string();
+    let count: u64 = arg(args, "--count").map(|s| s.parse().unwrap()).unwrap_or(200);
+    let exe = std::env::current_exe().unwrap();
+    let mut tables: Vec<BTreeMap<u64, String>> = vec![];
+    for nshards in [1u64, 3, 7] {
+        let mut children = vec![];
+        for shard in 0..nshards {
+            let c = Command::new(&exe)
+                .arg("worker")
+                .args(["--prop", &prop, "--tier", &tier, "--seed", &seed])
+                .args(["--shard", &shard.to_string(), "--nshards", &nshards.to_string()])
+                .args(["--count", &count.to_string(), "--out", "/verif/out/selftest", "--per-run"])
+                .stdout(Stdio::piped())
+                .stderr(Stdio::null())
+                .spawn()
+                .unwrap();
+            children.push(c);
+        }
+        let mut t = BTreeMap::new();
+        for c in children {
+            let o = c.wait_with_output().unwrap();
+            for l in String::from_utf8_lossy(&o.stdout).lines() {
+                if let Ok(v) = serde_json::from_str::<Value>(l) {
+                    if v["t"] == "run" {
+                        t.insert(
+                            v["i"].as_u64().unwrap(),
+                            format!("{} {}", v["h"].as_str().unwrap_or(""), v["viol"]),
+                        );
+                    }
+                }
+            }
+        }
+        tables.push(t);
+    }
+    let mut bad = 0;
+    for (i, h) in &tables[0] {
+        for t in &tables[1..] {
+            if t.get(i) != Some(h) {
+                bad += 1;
+                println!("NONDETERMINISM property={prop} run={i}: {h} vs {:?}", t.get(i));
+            }
+        }
+    }
+    println!(
+        "selftest property={prop}: {} runs x 3 process layouts (1, 3, 7 workers), {bad} differing",
+        tables[0].len()
+    );
+    if bad > 0 || tables[0].len() as u64 != count {
+        2
     } else {
         0
     }
@@ -753,6 +831,18 @@ fn main() {
         Some("replay") => replay(&args),
         Some("gen") => gen_cmd(&args),
         Some("regress") => regress(&args),
+        Some("selftest") => selftest(&args),
+        Some("counts") => {
+            let mut m = serde_json::Map::new();
+            for p in ["C01", "C02", "C03", "C10", "C11", "C12", "C13", "C14", "C17", "C18", "C20"] {
+                m.insert(
+                    p.to_string(),
+                    json!({"quick": families::run_count(p, Tier::Quick), "thorough": families::run_count(p, Tier::Thorough)}),
+                );
+            }
+            println!("{}", Value::Object(m));
+            0
+        }
         _ => {
             eprintln!("usage: llg-sim batch|worker|replay|gen|corpus-check ...");
             2
